@@ -77,7 +77,7 @@ PROPS = {
                 slices=['probe'], monitors=['c09'],
                 pending=['big-step corollary: the log of a strict node is the concatenation of its children\'s logs']),
     'C10': dict(obligations=lambda: P('SqProps.C10'),
-                slices=['scope'], monitors=['c10'],
+                slices=['scope', 'session_scope'], monitors=['c10'],
                 pending=['scope_balanced (scopes.length = 1 + #popScope frames, invariant of step)']),
     'C11': dict(obligations=lambda: P('SqProps.C11') + SHAPE_RESETS,
                 slices=['session'], monitors=['c11'],
